@@ -8,7 +8,7 @@ SPEC = {
                  'recording mixture stub, and of the whole chain with an access monitor on the global generator; 2-run history independence',
     'bounds': {'quick': 'any initial generator state (key, position, has_gauss, cached gaussian symbolic), any temporary seed, body '
                         'that draws and then returns or raises; any random_seed int >= 0; whole chain on <= 2 hits; 30-hit mixture group',
-               'thorough': 'as quick, chain on 3 hits'},
+               'thorough': 'as quick, chain on 2 hits of 2 ceilometers, history 2-run on 2-hit chunks'},
     'outside': 'bit-identity across processes, PYTHONHASHSEED values, thread counts and library builds: a property of the numpy / '
                'scikit-learn binaries that cannot be encoded; the determinism of the three numerical procedures is assumed (stubs are memoised)',
     'budget_s': {'quick': 600, 'thorough': 1800},
@@ -154,7 +154,7 @@ HARNESSES = [
       doc='real mocker.canonical_demo_data leaves the generator state as it found it'),
     H('H-gmm-seed', h_gmm_seed, quick=[()], thorough=[()], cover=['seed 0', 'seed > 0'], float_model='R',
       doc='real layer.ncomp_from_gmm with any seed >= 0: every GaussianMixture is given exactly that random_state'),
-    H('H-monitor', h_monitor, quick=[(1, 1), (2, 1)], thorough=[(1, 1), (2, 1), (2, 2), (3, 1)], cover=['ran'], float_model='R',
+    H('H-monitor', h_monitor, quick=[(1, 1), (2, 1)], thorough=[(1, 1), (2, 1), (2, 2)], cover=['ran'], float_model='R',
       doc='whole chain: numpy.random is never touched'),
     H('H-layer-monitor', h_layer_monitor, quick=[('asc',)], thorough=[('asc',), ('desc',)], cover=['mixture engaged'], float_model='R',
       doc='mixture path: explicit concrete random_state, numpy.random never touched'),
